@@ -52,17 +52,8 @@ def outMesh (o : Array K) (nx ny : Nat) (f : Mesh K) : Array K := Id.run do
     for j in [0:ny] do o := pushV3 o (f i j)
   return o
 
-/-- materialise a function on `[0,n)` so that later stages do not recompute it -/
-def memoVec (n : Nat) (f : Nat → K) : Nat → K :=
-  let a := outVec #[] n f
-  fun i => at_ a i
-
-def memoPts (n : Nat) (f : Pts K) : Pts K :=
-  let a := outPts #[] n f
-  pts a 0
-
-def memoMesh (nx ny : Nat) (f : Mesh K) : Mesh K :=
-  let a := outMesh #[] nx ny f
-  mesh a 0 ny
+/-! Materialisation between stages is done in the ops by binding the flattened `Array` with a `let`
+(e.g. `let a1 := outMesh #[] nx ny f; let m1 := mesh a1 0 ny`).  A helper returning the view directly
+would be eta-expanded by the compiler and recompute the array on every access. -/
 
 end OAS.Driver
